@@ -7,7 +7,7 @@ d = '/var/tmp/mirdbg'
 if '--fresh' in sys.argv or not os.path.exists(d + '/calloop.mir'):
     os.environ['VERIF_KEEP'] = '1'
     ctx = driver.build_ctx()
-    subprocess.run(['rm', '-rf', d]); subprocess.run(['cp', '-r', ctx.root, d])
+    subprocess.run(['rm', '-rf', d]); subprocess.run(['mv', ctx.root, d])
 fns = mir_parse.parse_file(open(d + '/calloop.mir').read())
 ctx = driver.Ctx(fns, driver.parse_enums(d + '/calloop/src'), d + '/calloop/src', d)
 if len(sys.argv) > 1 and not sys.argv[1].startswith('--'):
@@ -35,6 +35,6 @@ if '--p' in sys.argv:
     from mirsym import pqueries
     import time
     t = time.time()
-    r = getattr(pqueries, sys.argv[sys.argv.index('--p') + 1])(ctx, 'quick')
+    r = getattr(pqueries, sys.argv[sys.argv.index('--p') + 1])(ctx, os.environ.get('TIER', 'quick'))
     print({k: v for k, v in r.items() if k != 'cex'}, 'wall %.1f' % (time.time() - t))
     print(r.get('cex', ''))
